@@ -35,6 +35,7 @@ def _validate_shard(path):
 
 
 def validate(sessions: list[dict], tmp: str):
+    sessions = [s for s in sessions if not tla.has_null(s["events"])]        # (never seen on the unchanged tree)
     if not sessions:
         return 0, []
     shards = [sessions[i::8] for i in range(8) if sessions[i::8]]
